@@ -1,6 +1,6 @@
 /-
 The scope-stack machine of `Scope/Core.lean` computes, for every chunk, exactly the answers listed by
-`Ordered.chunk true`: `Core.analyse b |>.answers = Ordered.chunk true b`.
+`Ordered.chunk true`: `Core.analyse b |>.answers = Ordered.chunk b`.
 
 Method (validated on a toy language first, DESIGN Appendix A): a relation `Rel` between the scope
 stack and the specification's environment (every name looks up to the same local declaration,
@@ -434,8 +434,8 @@ theorem defineParams_grow (ps : List Param) (σ : St) (inF : Bool) (env : Env)
 
 
 theorem body_case (sp : Span) (params : List Param) (b : Block)
-    (hb : BlockOK (fun σ => block σ b) (fun inF env => sBlock true inF env b)) :
-    DescOK (fun σ => body_ σ (.mk sp params b)) (fun _ env => sBody true env none (.mk sp params b)) := by
+    (hb : BlockOK (fun σ => block σ b) (fun inF env => sBlock inF env b)) :
+    DescOK (fun σ => body_ σ (.mk sp params b)) (fun _ env => sBody env none (.mk sp params b)) := by
   intro σ inF env r
   let σ₀ : St := { σ.open with fdepth := σ.fdepth + 1 }
   have hs0 : σ₀.stack = [] :: σ.stack := rfl
@@ -492,31 +492,31 @@ theorem inScope {σ σ₂ : St} {o : List Ans} (g : Grow σ.open σ₂ o) : Pure
 
 def ElifOK (l : ElseIfList) : Prop :=
   ∀ (σ : St) (inF : Bool) (env : Env), Rel σ.close.stack σ.close.fdepth inF env →
-    Pure σ.close (elseifs σ l).close (sElifs true inF env l)
+    Pure σ.close (elseifs σ l).close (sElifs inF env l)
 
-abbrev EOK (e : Expr) : Prop := DescOK (fun σ => descE σ e) (fun inF env => dE true inF env e)
-abbrev EsOK (es : ExprList) : Prop := DescOK (fun σ => descEs σ es) (fun inF env => dEs true inF env es)
-abbrev BOK (b : Block) : Prop := BlockOK (fun σ => block σ b) (fun inF env => sBlock true inF env b)
-abbrev BodyOK (body : FuncBody) : Prop := DescOK (fun σ => body_ σ body) (fun _ env => sBody true env none body)
+abbrev EOK (e : Expr) : Prop := DescOK (fun σ => descE σ e) (fun inF env => dE inF env e)
+abbrev EsOK (es : ExprList) : Prop := DescOK (fun σ => descEs σ es) (fun inF env => dEs inF env es)
+abbrev BOK (b : Block) : Prop := BlockOK (fun σ => block σ b) (fun inF env => sBlock inF env b)
+abbrev BodyOK (body : FuncBody) : Prop := DescOK (fun σ => body_ σ body) (fun _ env => sBody env none body)
 
 theorem do_case (sp : Span) (b : Block) (hb : BOK b) :
-    BlockOK (fun σ => stmt σ (.do_ sp b)) (fun inF env => sStmt true inF env (.do_ sp b)) := by
+    BlockOK (fun σ => stmt σ (.do_ sp b)) (fun inF env => sStmt inF env (.do_ sp b)) := by
   intro σ inF env r
   obtain ⟨g, _⟩ := hb σ.open inF env (open_rel σ r)
   exact (inScope g).block r rfl
 
 theorem while_case (sp : Span) (c : Expr) (b : Block) (hc : EOK c) (hb : BOK b) :
-    BlockOK (fun σ => stmt σ (.while_ sp c b)) (fun inF env => sStmt true inF env (.while_ sp c b)) := by
+    BlockOK (fun σ => stmt σ (.while_ sp c b)) (fun inF env => sStmt inF env (.while_ sp c b)) := by
   intro σ inF env r
   have h1 := eagerE_pure σ c r
   have r1 := open_rel _ (h1.rel r)
   have h2 := hc _ inF env r1
   obtain ⟨g3, _⟩ := hb _ inF env (h2.rel r1)
   exact (h1.trans (inScope (h2.thenGrow g3))).block r
-    (by show _ = eE inF env c ++ dE true inF env c ++ (sBlock true inF env b).1; simp [List.append_assoc])
+    (by show _ = eE inF env c ++ dE inF env c ++ (sBlock inF env b).1; simp [List.append_assoc])
 
 theorem repeat_case (sp : Span) (b : Block) (c : Expr) (hb : BOK b) (hc : EOK c) :
-    BlockOK (fun σ => stmt σ (.repeat_ sp b c)) (fun inF env => sStmt true inF env (.repeat_ sp b c)) := by
+    BlockOK (fun σ => stmt σ (.repeat_ sp b c)) (fun inF env => sStmt inF env (.repeat_ sp b c)) := by
   intro σ inF env r
   obtain ⟨g, rb⟩ := hb σ.open inF env (open_rel σ r)
   have h2 := hc _ inF _ rb
@@ -525,7 +525,7 @@ theorem repeat_case (sp : Span) (b : Block) (c : Expr) (hb : BOK b) (hc : EOK c)
 
 theorem if_case (sp : Span) (c : Expr) (b : Block) (elifs : ElseIfList) (els : OptBlock)
     (hc : EOK c) (hb : BOK b) (hel : ElifOK elifs) (hels : ∀ eb, els = .some eb → BOK eb) :
-    BlockOK (fun σ => stmt σ (.if_ sp c b elifs els)) (fun inF env => sStmt true inF env (.if_ sp c b elifs els)) := by
+    BlockOK (fun σ => stmt σ (.if_ sp c b elifs els)) (fun inF env => sStmt inF env (.if_ sp c b elifs els)) := by
   intro σ inF env r
   have h1 := eagerE_pure σ c r
   have r1 := h1.rel r
@@ -538,12 +538,12 @@ theorem if_case (sp : Span) (c : Expr) (b : Block) (elifs : ElseIfList) (els : O
   cases els with
   | none =>
     exact ((h1.trans h3).trans h4).block r
-      (by show _ = eE inF env c ++ dE true inF env c ++ (sBlock true inF env b).1 ++ sElifs true inF env elifs ++ []
+      (by show _ = eE inF env c ++ dE inF env c ++ (sBlock inF env b).1 ++ sElifs inF env elifs ++ []
           simp [List.append_assoc])
   | some eb =>
     obtain ⟨g5, _⟩ := hels eb rfl _ inF env (open_rel _ r4)
     exact (((h1.trans h3).trans h4).trans (inScope g5)).block r
-      (by show _ = eE inF env c ++ dE true inF env c ++ (sBlock true inF env b).1 ++ sElifs true inF env elifs ++ (sBlock true inF env eb).1
+      (by show _ = eE inF env c ++ dE inF env c ++ (sBlock inF env b).1 ++ sElifs inF env elifs ++ (sBlock inF env eb).1
           simp [List.append_assoc])
 
 theorem elif_case (sp : Span) (c : Expr) (b : Block) (rest : ElseIfList)
@@ -557,7 +557,7 @@ theorem elif_case (sp : Span) (c : Expr) (b : Block) (rest : ElseIfList)
   have h4 := hrest _ inF env (h3.rel r1)
   have := (h1.trans h3).trans h4
   show Pure σ.close (elseifs (block (descE (eagerE σ.close c).open c) b) rest).close
-    (eE inF env c ++ dE true inF env c ++ (sBlock true inF env b).1 ++ sElifs true inF env rest)
+    (eE inF env c ++ dE inF env c ++ (sBlock inF env b).1 ++ sElifs inF env rest)
   simpa [List.append_assoc] using this
 
 
@@ -566,82 +566,80 @@ abbrev OEOK (e : OptExpr) : Prop := ∀ x, e = .some x → EOK x
 theorem numFor_case (sp : Span) (v comma : Tok) (start stop : Expr) (step : OptExpr) (b : Block)
     (h1 : EOK start) (h2 : EOK stop) (h3 : OEOK step) (hb : BOK b) :
     BlockOK (fun σ => stmt σ (.numFor sp v comma start stop step b))
-      (fun inF env => sStmt true inF env (.numFor sp v comma start stop step b)) := by
+      (fun inF env => sStmt inF env (.numFor sp v comma start stop step b)) := by
   intro σ inF env r
   have e1 := eagerE_pure σ start r
   have e2 := eagerE_pure _ stop (e1.rel r)
   cases step with
   | none =>
-    have re := (e1.trans e2).rel r
-    obtain ⟨gl, rl⟩ := local_grow _ v v.text .loopVar (open_rel _ re)
-    have ro := open_rel _ rl
+    have ro := open_rel _ ((e1.trans e2).rel r)
     have d1 := h1 _ inF _ ro
     have d2 := h2 _ inF _ (d1.rel ro)
-    obtain ⟨gb, _⟩ := hb _ inF _ ((d1.trans d2).rel ro)
-    have inner := inScope ((d1.trans d2).thenGrow gb)
-    have outer := inScope (gl.pure inner)
+    obtain ⟨gl, rl⟩ := local_grow _ v v.text .loopVar ((d1.trans d2).rel ro)
+    obtain ⟨gb, _⟩ := hb _ inF _ (open_rel _ rl)
+    have inner := inScope gb
+    have outer := inScope (((d1.trans d2).thenGrow gl).pure inner)
     exact ((e1.trans e2).trans outer).block r
       (by show _ = eE inF env start ++ eE inF env stop ++ [] ++
-              dE true inF (bindTok env v v.text .loopVar) start ++ dE true inF (bindTok env v v.text .loopVar) stop ++ [] ++
-              (sBlock true inF (bindTok env v v.text .loopVar) b).1
+              dE inF env start ++ dE inF env stop ++ [] ++
+              (sBlock inF (bindTok env v v.text .loopVar) b).1
           simp [List.append_assoc])
   | some st =>
     have e3 := eagerE_pure _ st ((e1.trans e2).rel r)
-    have re := ((e1.trans e2).trans e3).rel r
-    obtain ⟨gl, rl⟩ := local_grow _ v v.text .loopVar (open_rel _ re)
-    have ro := open_rel _ rl
+    have ro := open_rel _ (((e1.trans e2).trans e3).rel r)
     have d1 := h1 _ inF _ ro
     have d2 := h2 _ inF _ (d1.rel ro)
     have d3 := h3 st rfl _ inF _ ((d1.trans d2).rel ro)
-    obtain ⟨gb, _⟩ := hb _ inF _ (((d1.trans d2).trans d3).rel ro)
-    have inner := inScope (((d1.trans d2).trans d3).thenGrow gb)
-    have outer := inScope (gl.pure inner)
+    obtain ⟨gl, rl⟩ := local_grow _ v v.text .loopVar (((d1.trans d2).trans d3).rel ro)
+    obtain ⟨gb, _⟩ := hb _ inF _ (open_rel _ rl)
+    have inner := inScope gb
+    have outer := inScope ((((d1.trans d2).trans d3).thenGrow gl).pure inner)
     exact (((e1.trans e2).trans e3).trans outer).block r
       (by show _ = eE inF env start ++ eE inF env stop ++ eE inF env st ++
-              dE true inF (bindTok env v v.text .loopVar) start ++ dE true inF (bindTok env v v.text .loopVar) stop ++
-              dE true inF (bindTok env v v.text .loopVar) st ++
-              (sBlock true inF (bindTok env v v.text .loopVar) b).1
+              dE inF env start ++ dE inF env stop ++ dE inF env st ++
+              (sBlock inF (bindTok env v v.text .loopVar) b).1
           simp [List.append_assoc])
 
 theorem genFor_case (sp : Span) (names : List Tok) (es : ExprList) (b : Block) (hes : EsOK es) (hb : BOK b) :
-    BlockOK (fun σ => stmt σ (.genFor sp names es b)) (fun inF env => sStmt true inF env (.genFor sp names es b)) := by
+    BlockOK (fun σ => stmt σ (.genFor sp names es b)) (fun inF env => sStmt inF env (.genFor sp names es b)) := by
   intro σ inF env r
   have e1 := eagerEs_pure σ es r
-  obtain ⟨gl, rl⟩ := defineAll_grow .loopVar names _ inF env (open_rel _ (e1.rel r))
-  have d1 := hes _ inF _ rl
-  obtain ⟨gb, _⟩ := hb _ inF _ (d1.rel rl)
-  have inner := inScope ((gl.pure d1).trans gb)
+  have ro := open_rel _ (e1.rel r)
+  have d1 := hes _ inF _ ro
+  obtain ⟨gl, rl⟩ := defineAll_grow .loopVar names _ inF env (d1.rel ro)
+  obtain ⟨gb, _⟩ := hb _ inF _ rl
+  have inner := inScope ((d1.thenGrow gl).trans gb)
   exact (e1.trans inner).block r
-    (by show _ = eEs inF env es ++ dEs true inF (bindAll env .loopVar names) es ++ (sBlock true inF (bindAll env .loopVar names) b).1
+    (by show _ = eEs inF env es ++ dEs inF env es ++ (sBlock inF (bindAll env .loopVar names) b).1
         simp [List.append_assoc])
 
 theorem localAssign_case (sp : Span) (names : List Tok) (es : ExprList) (hes : EsOK es) :
-    BlockOK (fun σ => stmt σ (.localAssign sp names es)) (fun inF env => sStmt true inF env (.localAssign sp names es)) := by
+    BlockOK (fun σ => stmt σ (.localAssign sp names es)) (fun inF env => sStmt inF env (.localAssign sp names es)) := by
   intro σ inF env r
   have e1 := eagerEs_pure σ es r
   have d1 := hes _ inF env (e1.rel r)
   obtain ⟨gl, rl⟩ := defineAll_grow .local_ names _ inF env ((e1.trans d1).rel r)
   refine ⟨?_, rl⟩
   have := (e1.trans d1).thenGrow gl
-  show Grow σ (defineAll (descEs (eagerEs σ es) es) names) (eEs inF env es ++ dEs true inF env es)
+  show Grow σ (defineAll (descEs (eagerEs σ es) es) names) (eEs inF env es ++ dEs inF env es)
   simpa using this
 
 theorem localFunc_case (sp : Span) (name : Tok) (body : FuncBody) (hbody : BodyOK body) :
-    BlockOK (fun σ => stmt σ (.localFunc sp name body)) (fun inF env => sStmt true inF env (.localFunc sp name body)) := by
+    BlockOK (fun σ => stmt σ (.localFunc sp name body)) (fun inF env => sStmt inF env (.localFunc sp name body)) := by
   intro σ inF env r
   obtain ⟨gl, rl⟩ := local_grow σ name name.text .localFunc r
   have hb := hbody _ inF _ (open_rel _ rl)
   have inner := inScope (hb.grow (by simp [St.open]))
   refine ⟨?_, inner.rel rl⟩
   have := gl.pure inner
-  exact this.cast (by show [] ++ sBody true (bindTok env name name.text .localFunc) none body = sBody true (bindTok env name name.text .localFunc) none body; simp)
+  exact this.cast (by show [] ++ sBody (bindTok env name name.text .localFunc) none body = sBody (bindTok env name name.text .localFunc) none body; simp)
 
-theorem sBody_self (hdr : Bool) (env : Env) (m : Tok) (body : FuncBody) :
-    sBody hdr env (some m) body = sBody hdr (bindTok env m "self" .self_) none body := by
+theorem sBody_self (env : Env) (m : Tok) (body : FuncBody) :
+    sBody env (some m) body = sBody (bindTok env m "self" .self_) none body := by
   cases body; rfl
 
 theorem func_case (sp : Span) (name : FuncName) (body : FuncBody) (hbody : BodyOK body) :
-    BlockOK (fun σ => stmt σ (.func sp name body)) (fun inF env => sStmt true inF env (.func sp name body)) := by
+    BlockOK (fun σ => stmt σ (.func sp name body)) (fun inF env => sStmt inF env (.func sp name body)) := by
   intro σ inF env r
   obtain ⟨nsp, names, method⟩ := name
   cases names with
@@ -672,7 +670,7 @@ theorem func_case (sp : Span) (name : FuncName) (body : FuncBody) (hbody : BodyO
       refine ⟨?_, inner.rel r1⟩
       have := g1.pure inner
       exact this.cast (by
-        show _ = (if (!more.isEmpty || (some m).isSome) = true then sRead inF env base else []) ++ sBody true env (some m) body
+        show _ = (if (!more.isEmpty || (some m).isSome) = true then sRead inF env base else []) ++ sBody env (some m) body
         rw [sBody_self]; simp)
 
 
@@ -706,10 +704,10 @@ theorem assignTargets_grow (vars : VarList) (es : ExprList) (σ : St) (inF : Boo
         obtain ⟨g2, r2⟩ := assignTargets_grow rest es' _ inF env ((he.trans h).rel r)
         exact ⟨((he.trans h).thenGrow g2).cast (by show _ = eE inF env e ++ eV inF env (.expr vsp p ss) ++ sTargets inF env rest es'; simp), r2⟩
 
-abbrev VsOK (vs : VarList) : Prop := DescOK (fun σ => descVs σ vs) (fun inF env => dVs true inF env vs)
+abbrev VsOK (vs : VarList) : Prop := DescOK (fun σ => descVs σ vs) (fun inF env => dVs inF env vs)
 
 theorem assign_case (sp : Span) (vars : VarList) (es : ExprList) (hvs : VsOK vars) (hes : EsOK es) :
-    BlockOK (fun σ => stmt σ (.assign sp vars es)) (fun inF env => sStmt true inF env (.assign sp vars es)) := by
+    BlockOK (fun σ => stmt σ (.assign sp vars es)) (fun inF env => sStmt inF env (.assign sp vars es)) := by
   intro σ inF env r
   obtain ⟨g, rg⟩ := assignTargets_grow vars es σ inF env r
   have d1 := hvs _ inF env rg
@@ -717,9 +715,9 @@ theorem assign_case (sp : Span) (vars : VarList) (es : ExprList) (hvs : VsOK var
   exact ⟨(g.pure d1).pure d2, d2.rel (d1.rel rg)⟩
 
 theorem call_case (sp : Span) (p : Prefix) (ss : SuffixList)
-    (hp : DescOK (fun σ => descP σ p) (fun inF env => dP true inF env p))
-    (hss : DescOK (fun σ => stmtSs σ ss) (fun inF env => sSs true inF env ss)) :
-    BlockOK (fun σ => stmt σ (.call (.mk sp p ss))) (fun inF env => sStmt true inF env (.call (.mk sp p ss))) := by
+    (hp : DescOK (fun σ => descP σ p) (fun inF env => dP inF env p))
+    (hss : DescOK (fun σ => stmtSs σ ss) (fun inF env => sSs inF env ss)) :
+    BlockOK (fun σ => stmt σ (.call (.mk sp p ss))) (fun inF env => sStmt inF env (.call (.mk sp p ss))) := by
   intro σ inF env r
   have h1 := eagerP_pure σ p r
   have h2 := hp _ inF env (h1.rel r)
@@ -727,7 +725,7 @@ theorem call_case (sp : Span) (p : Prefix) (ss : SuffixList)
   exact ((h1.trans h2).trans h3).block r rfl
 
 theorem block_case (sp : Option Span) (stmts : StmtList) (last : LastStmt)
-    (hs : BlockOK (fun σ => stmts_ σ stmts) (fun inF env => sStmts true inF env stmts))
+    (hs : BlockOK (fun σ => stmts_ σ stmts) (fun inF env => sStmts inF env stmts))
     (hl : ∀ rsp es, last = .ret rsp es → EsOK es) : BOK (.mk sp stmts last) := by
   intro σ inF env r
   obtain ⟨g, rg⟩ := hs σ inF env r
@@ -740,9 +738,9 @@ theorem block_case (sp : Option Span) (stmts : StmtList) (last : LastStmt)
     exact ⟨(g.pure e1).pure d1, d1.rel (e1.rel rg)⟩
 
 theorem stmts_cons_case (s : Stmt) (rest : StmtList)
-    (hs : BlockOK (fun σ => stmt σ s) (fun inF env => sStmt true inF env s))
-    (hr : BlockOK (fun σ => stmts_ σ rest) (fun inF env => sStmts true inF env rest)) :
-    BlockOK (fun σ => stmts_ σ (.cons s rest)) (fun inF env => sStmts true inF env (.cons s rest)) := by
+    (hs : BlockOK (fun σ => stmt σ s) (fun inF env => sStmt inF env s))
+    (hr : BlockOK (fun σ => stmts_ σ rest) (fun inF env => sStmts inF env rest)) :
+    BlockOK (fun σ => stmts_ σ (.cons s rest)) (fun inF env => sStmts inF env (.cons s rest)) := by
   intro σ inF env r
   obtain ⟨g, rg⟩ := hs σ inF env r
   obtain ⟨g2, r2⟩ := hr _ inF _ rg
@@ -779,18 +777,18 @@ theorem descEs_ok (es : ExprList) : EsOK es := by
     have h1 := descE_ok e σ inF env r
     have h2 := descEs_ok rest _ inF env (h1.rel r)
     exact h1.trans h2
-theorem descC_ok (c : FCall) : DescOK (fun σ => descC σ c) (fun inF env => dC true inF env c) := by
+theorem descC_ok (c : FCall) : DescOK (fun σ => descC σ c) (fun inF env => dC inF env c) := by
   cases c with
   | mk _ p ss =>
     intro σ inF env r
     have h1 := descP_ok p σ inF env r
     have h2 := descSs_ok ss _ inF env (h1.rel r)
     exact h1.trans h2
-theorem descP_ok (p : Prefix) : DescOK (fun σ => descP σ p) (fun inF env => dP true inF env p) := by
+theorem descP_ok (p : Prefix) : DescOK (fun σ => descP σ p) (fun inF env => dP inF env p) := by
   cases p with
   | name _ => exact fun σ _ _ _ => Pure.refl σ
   | expr e => exact fun σ inF env r => descE_ok e σ inF env r
-theorem descSs_ok (ss : SuffixList) : DescOK (fun σ => descSs σ ss) (fun inF env => dSs true inF env ss) := by
+theorem descSs_ok (ss : SuffixList) : DescOK (fun σ => descSs σ ss) (fun inF env => dSs inF env ss) := by
   cases ss with
   | nil => exact fun σ _ _ _ => Pure.refl σ
   | cons s rest =>
@@ -798,19 +796,19 @@ theorem descSs_ok (ss : SuffixList) : DescOK (fun σ => descSs σ ss) (fun inF e
     have h1 := descS_ok s σ inF env r
     have h2 := descSs_ok rest _ inF env (h1.rel r)
     exact h1.trans h2
-theorem descS_ok (s : Suffix) : DescOK (fun σ => descS σ s) (fun inF env => dS true inF env s) := by
+theorem descS_ok (s : Suffix) : DescOK (fun σ => descS σ s) (fun inF env => dS inF env s) := by
   cases s with
   | dot _ _ => exact fun σ _ _ _ => Pure.refl σ
   | idx _ e => exact fun σ inF env r => descE_ok e σ inF env r
   | args _ a => exact fun σ inF env r => descA_ok a σ inF env r
   | meth _ _ a => exact fun σ inF env r => descA_ok a σ inF env r
   | unsupported _ => exact fun σ _ _ _ => Pure.refl σ
-theorem descA_ok (a : Args) : DescOK (fun σ => descA σ a) (fun inF env => dA true inF env a) := by
+theorem descA_ok (a : Args) : DescOK (fun σ => descA σ a) (fun inF env => dA inF env a) := by
   cases a with
   | parens _ es => exact fun σ inF env r => descEs_ok es σ inF env r
   | tbl _ fs => exact fun σ inF env r => descFields_ok fs σ inF env r
   | str _ _ _ => exact fun σ _ _ _ => Pure.refl σ
-theorem descFields_ok (fs : FieldList) : DescOK (fun σ => descFields σ fs) (fun inF env => dFs true inF env fs) := by
+theorem descFields_ok (fs : FieldList) : DescOK (fun σ => descFields σ fs) (fun inF env => dFs inF env fs) := by
   cases fs with
   | nil => exact fun σ _ _ _ => Pure.refl σ
   | cons f rest =>
@@ -835,7 +833,7 @@ theorem descFields_ok (fs : FieldList) : DescOK (fun σ => descFields σ fs) (fu
       intro σ inF env r
       have h3 := descFields_ok rest σ inF env r
       exact (Pure.refl σ).trans h3
-theorem descV_ok (v : Var) : DescOK (fun σ => descV σ v) (fun inF env => dV true inF env v) := by
+theorem descV_ok (v : Var) : DescOK (fun σ => descV σ v) (fun inF env => dV inF env v) := by
   cases v with
   | name _ => exact fun σ _ _ _ => Pure.refl σ
   | expr _ p ss =>
@@ -851,7 +849,7 @@ theorem descVs_ok (vs : VarList) : VsOK vs := by
     have h1 := descV_ok v σ inF env r
     have h2 := descVs_ok rest _ inF env (h1.rel r)
     exact h1.trans h2
-theorem stmtSs_ok (ss : SuffixList) : DescOK (fun σ => stmtSs σ ss) (fun inF env => sSs true inF env ss) := by
+theorem stmtSs_ok (ss : SuffixList) : DescOK (fun σ => stmtSs σ ss) (fun inF env => sSs inF env ss) := by
   cases ss with
   | nil => exact fun σ _ _ _ => Pure.refl σ
   | cons s rest =>
@@ -875,7 +873,7 @@ theorem block_ok (b : Block) : BOK b := by
       exact descEs_ok es'
     | none => cases h
     | brk _ => cases h
-theorem stmts_ok (l : StmtList) : BlockOK (fun σ => stmts_ σ l) (fun inF env => sStmts true inF env l) := by
+theorem stmts_ok (l : StmtList) : BlockOK (fun σ => stmts_ σ l) (fun inF env => sStmts inF env l) := by
   cases l with
   | nil => exact fun σ inF env r => ⟨(Pure.refl σ).grow r.ne, r⟩
   | cons s rest => exact stmts_cons_case s rest (stmt_ok s) (stmts_ok rest)
@@ -885,7 +883,7 @@ theorem elseifs_ok (l : ElseIfList) : ElifOK l := by
   | cons e rest =>
     cases e with
     | mk sp c b => exact elif_case sp c b rest (descE_ok c) (block_ok b) (elseifs_ok rest)
-theorem stmt_ok (s : Stmt) : BlockOK (fun σ => stmt σ s) (fun inF env => sStmt true inF env s) := by
+theorem stmt_ok (s : Stmt) : BlockOK (fun σ => stmt σ s) (fun inF env => sStmt inF env s) := by
   cases s with
   | assign sp vars es => exact assign_case sp vars es (descVs_ok vars) (descEs_ok es)
   | localAssign sp names es => exact localAssign_case sp names es (descEs_ok es)
@@ -914,7 +912,7 @@ theorem stmt_ok (s : Stmt) : BlockOK (fun σ => stmt σ s) (fun inF env => sStmt
 end
 
 /-- **The scope-stack machine computes the ordered specification**, for every chunk. -/
-theorem analyse_eq (b : Block) : (analyse b).answers = chunk true b := by
+theorem analyse_eq (b : Block) : (analyse b).answers = chunk b := by
   have r : Rel ({} : St).stack ({} : St).fdepth false [] :=
     ⟨by simp, by simp, fun n => by simp [stackFind, scopeFind, look, Env.lookup, lb]⟩
   obtain ⟨g, _⟩ := block_ok b {} false [] r
